@@ -106,7 +106,7 @@ def runs_for(pid, tier, seed):
             R('s2core/IP two-sided', fm.s2core(CritLists=crit, OrderMode='all', CheckIP=True, PQ={(0, 1), (0, 2)},
                                                LQ={(0, 1, 1), (0, 1, 2), (0, 2, 2)}, **two), simulate=None if not q else 8000),
             R('zerocap', fm.zerocap(CritLists=crit, CheckIP=True, **two)),
-            R('hr2', fm.hr2(CritLists=crit, CheckIP=True, Sided={'two'}, Stabs={True})),
+            R('hr2', fm.hr2(CritLists=crit, CheckIP=True, Sided={'two'}, Stabs={True}), simulate=10000 if q else None),
             R('shared3', fm.shared3(CritLists=crit, OrderMode='all', CheckIP=q is False, **two), simulate=3000 if q else None),
             R('wide', fm.wide(CritLists=crit, **two), simulate=3000 if q else 40000),
             R('wide-hr', fm.wide(na=2, CritLists=crit, Sided={'two'}, Stabs={True}), simulate=1500 if q else 20000),
